@@ -463,7 +463,22 @@ func cueDangerous(data []byte) bool {
 		lv, lsmall, lhuge := plainNum(left)
 		rv, rsmall, rhuge := plainNum(right)
 		listNear := strings.HasSuffix(left, "]") || strings.HasPrefix(right, "[")
+		midNum := func(tok string, small, huge bool) bool {
+			if tok == "" || small || huge {
+				return false
+			}
+			for i := 0; i < len(tok); i++ {
+				if !isNumRune(tok[i]) {
+					return false
+				}
+			}
+			return true
+		}
 		switch {
+		case midNum(left, lsmall, lhuge) || midNum(right, rsmall, rhuge):
+			// a factor between 1e5 and 1e18 (also at the end of a chain
+			// such as 'ab'*18*4674407615): gigabytes
+			return true
 		case (lhuge || rhuge) && !listNear:
 			// a string / bytes value times a count of 18+ digits overflows at
 			// once: the evaluator panics immediately (kept: the decoder must
